@@ -76,6 +76,8 @@ func init() {
 			RuleDef{Name: "ERR-1", What: "no error returned by a call in package bgzf is dropped (exemptions named)", Floor: 40, Run: ruleNoDroppedError([]string{"bgzf"}, errExempt)},
 			RuleDef{Name: "PATH-NEXTBLOCK", What: "a read-ahead result (error included) is reported only for the block whose base was expected", Floor: 1, Run: ruleNextBlock},
 			RuleDef{Name: "CUR-SEEKOFF", What: "a failed underlying Seek leaves the recorded offset where the stream still is (added after a blind second seed round)", Floor: 1, Run: ruleSeekOff},
+			RuleDef{Name: "BASE-DROPS-DATA", What: "after a failed read the recycled block does not look like a valid block of the new base", Floor: 2, Run: ruleBaseDropsData},
+			RuleDef{Name: "PIPE-STALL", What: "the read-ahead loop examines the decompressor's error before deriving the next offset (a failed read-ahead must not park the worker while the reader waits)", Floor: 1, Run: rulePipeStall},
 			RuleDef{Name: "LOCK-2", What: "the writer's error latch and the reader's cache field are accessed under their mutex (Close after wg.Wait exempt, structurally re-checked)", Floor: 8,
 				Run: func(c *Ctx, r *Rep, tier string) {
 					newLockAnalysis(c, []string{"bgzf"}).ruleGuarded(r, "LOCK-2", buildLockCfg(c, "bgzf"))
